@@ -639,9 +639,17 @@ pub fn boxes_for(id: &str, quick: bool) -> Vec<Box_> {
             for ana in [Ana::EdfP, Ana::EdfNp, Ana::EdfLp, Ana::EdfFl] {
                 v.push(mk("1 task T<=6 J<=12 C<=4 + curves D{1,5,20}", ana, 1, with_curves(sporadic_grid(6, 12)), 4, &[1, 5, 20], false));
                 if quick {
-                    v.push(mk("3 tasks T{3,6,10} J{0,3} C<=2 D{3,20}", ana, 3,
-                        [3u64, 6, 10].iter().flat_map(|t| [0u64, 3].into_iter().map(move |j| ArrSpec::Sporadic { t: *t, j })).collect(),
-                        if matches!(ana, Ana::EdfLp | Ana::EdfFl) { 1 } else { 2 }, &[3, 20], false));
+                    if matches!(ana, Ana::EdfLp | Ana::EdfFl) {
+                        // all segment layouts / section lengths of C <= 2 (tasks with different
+                        // longest segments are what the blocking term is about)
+                        v.push(mk("3 tasks {(6,0),(10,0),(10,3)} C<=2 all layouts D{3,20}", ana, 3,
+                            vec![ArrSpec::Sporadic { t: 6, j: 0 }, ArrSpec::Sporadic { t: 10, j: 0 }, ArrSpec::Sporadic { t: 10, j: 3 }],
+                            2, &[3, 20], false));
+                    } else {
+                        v.push(mk("3 tasks T{3,6,10} J{0,3} C<=2 D{3,20}", ana, 3,
+                            [3u64, 6, 10].iter().flat_map(|t| [0u64, 3].into_iter().map(move |j| ArrSpec::Sporadic { t: *t, j })).collect(),
+                            2, &[3, 20], false));
+                    }
                     v.push(mk("2 tasks T<=5 J<=2 C<=2 D{1,3,6}", ana, 2, sporadic_grid(5, 2), 2, &[1, 3, 6], false));
                     v.push(mk("2 tasks curves C<=2 D{2,5}", ana, 2, with_curves(sporadic_grid(3, 1)), 2, &[2, 5], false));
                 } else {
